@@ -61,6 +61,38 @@ def check_fleet(h):
                                   f"{r.avail_t}, not one round trip later ({t + 2*tau})", feat=lab)
         else:
             held -= 1
+    # (f) every departure is justified: the fleet filled up, or a waiting delay expired.  The statement does not fix the
+    # phase of the waiting delay, so a departure is accepted under every reading: a multiple of `delay` after the fleet was
+    # created or last filled up (the library's periodic timer), or `delay` after the oldest waiting item was loaded.
+    fills = []
+    held = 0
+    for x in evs:
+        if x[0] == "put":
+            held += 1
+            if held == cap:
+                fills.append(x[2])
+        else:
+            held -= 1
+    put_times = sorted({r.put_t for r in items})
+    for a, g in sorted(groups.items()):
+        dep = a - 2 * tau
+        tol = 1e-9 * max(1.0, abs(a))
+        if any(abs(dep - f) <= tol for f in fills):
+            continue
+        if delay <= 0:
+            if any(abs(dep - t) <= tol for t in put_times):
+                continue
+        else:
+            base = max([f for f in fills if f < dep - tol] + [0])
+            k = (dep - base) / delay
+            if k > 0.5 and abs(k - round(k)) * delay <= 1e-9 * max(1.0, abs(dep)) * max(1, round(k)):
+                continue
+            oldest = min(r.put_t for r in g)
+            if abs(dep - (oldest + delay)) <= tol:
+                continue
+        h.violate("C14", "unjustified-departure", f"delivery at {a} means a departure at {dep} with {[r.name for r in g]}: the fleet held fewer than {cap} items "
+                  f"and no waiting delay ({delay}) had expired (fleet filled up at {fills}, oldest item of the batch loaded at {min(r.put_t for r in g)})", feat=lab)
+        break
     # reach probes
     deps = sorted({a - 2 * tau for a in groups})
     for r in items:
